@@ -188,7 +188,8 @@ def h_prog(ops: List[Tuple[int, int]]):
 
         now = env.v.now
         for k, a in ops:
-            ca = 0 if a == 0 else 1 if a == 1 else 2
+            if k in (1, 2, 3, 8):      # (only these use the amount: no branching on `a` for the others)
+                ca = 0 if a == 0 else 1 if a == 1 else 2
             if k == 0 or k == 5 or k == 6:
                 i = new_id()
                 loop.add_callback(mk(i, 0 if k == 0 else 1 if k == 5 else 2))
